@@ -26,10 +26,13 @@ Emit(S) ==
          IN  IF LegalPosition(p) THEN EmitOne(p) /\ EmitOne(Mirror(p)) ELSE TRUE
 
 \* target d4 = 27: lines through it
+\* (b4 = 25, c4 = 26, f4 = 29, g4 = 30: like pieces on the target's own rank on both sides of it, with x-rays behind)
 WhiteD4 == {<<18, W(Pawn)>>, <<20, W(Pawn)>>, <<17, W(Knight)>>, <<37, W(Knight)>>, <<9, W(Bishop)>>,
-            <<0, W(Queen)>>, <<3, W(Rook)>>, <<11, W(Rook)>>, <<24, W(Queen)>>, <<45, W(Bishop)>>, <<13, W(Bishop)>>}
+            <<0, W(Queen)>>, <<3, W(Rook)>>, <<11, W(Rook)>>, <<24, W(Queen)>>, <<45, W(Bishop)>>, <<13, W(Bishop)>>,
+            <<25, W(Rook)>>, <<30, W(Rook)>>}
 BlackD4 == {<<34, Bl(Pawn)>>, <<36, Bl(Pawn)>>, <<33, Bl(Knight)>>, <<21, Bl(Knight)>>, <<54, Bl(Bishop)>>,
-            <<63, Bl(Queen)>>, <<59, Bl(Rook)>>, <<51, Bl(Rook)>>, <<31, Bl(Queen)>>, <<41, Bl(Bishop)>>, <<28, Bl(King)>>}
+            <<63, Bl(Queen)>>, <<59, Bl(Rook)>>, <<51, Bl(Rook)>>, <<31, Bl(Queen)>>, <<41, Bl(Bishop)>>, <<28, Bl(King)>>,
+            <<26, Bl(Rook)>>, <<29, Bl(Rook)>>}
 \* target d8 = 59: capturing promotions from c7 / e7
 WhiteD8 == {<<50, W(Pawn)>>, <<52, W(Pawn)>>, <<42, W(Knight)>>, <<3, W(Rook)>>, <<11, W(Queen)>>, <<31, W(Bishop)>>,
             <<24, W(Bishop)>>}
